@@ -3,7 +3,7 @@ PROPS = ["C24", "C25", "C26", "C30"]
 CLAIMS = {
     'C24': (
         'model_checking',
-        'TLC checks the C24 monitors (no effect on the agent and no data-bearing reply or stream record before an error-free reply to a version-1 handshake, resp. -- with an auth key configured -- before an error-free reply to an auth request carrying the right key; every header of another command sent with intact framing while authentication is missing is answered by an error header with its Seq, judged at a close barrier) exhaustively on spec/AgentIPC.tla (every sequence of wire objects up to the bound: 20 commands + an unknown one, bodies valid / wrong / absent / malformed, keyed and unkeyed agent; the model includes the reuse of the header variable and the unconsumed bodies of rejected commands) and on every object of TLC-simulated sequences put on the wire of a real AgentIPC of a real quiet Agent by a raw msgpack client; every line (replies, effects, closure) is validated by TLC against the model.',
+        'TLC checks the C24 monitors (no effect on the agent and no data-bearing reply or stream record before an error-free reply to a version-1 handshake, resp. -- with an auth key configured -- before an error-free reply to an auth request carrying the right key; every header of another command sent with intact framing while authentication is missing is answered by an error header with its Seq, judged at a close barrier) exhaustively on spec/AgentIPC.tla (every sequence of wire objects up to the bound: 20 commands + an unknown one, bodies valid / wrong / absent / malformed, handshake versions 1 / 0 / 2 / 2^31-1, keyed and unkeyed agent; the model includes the reuse of the header variable and the unconsumed bodies of rejected commands) and on every object of TLC-simulated sequences put on the wire of a real AgentIPC of a real quiet Agent by a raw msgpack client; every line (replies, effects, closure) is validated by TLC against the model.',
         'Trusts TLC, the raw client and its framing rule (a body belongs to the header whose write it shares), the effect observers (broadcast queues drained through the real GetBroadcasts, LocalMember tags, transport dial gate, overlay accessors for handler / client counts, Serf.State) and the quiet configuration built like quiet.NewNode but handed to agent.Create.',
         'TLA+ spec (AgentIPC) + TLC exhaustive check of the monitor; TLC-simulated object sequences replayed on the real agent RPC server; TLC trace validation of every object with the property monitor on observed replies and effects',
         '5 C24',
